@@ -21,7 +21,9 @@ def main():
         caught = []
         for prop in meta['checks']:
             entry = results.get(meta['id'], {}).get(prop)
-            if entry is None:
+            if meta.get('neutralised_by'):
+                caught.append(f'{prop} (until it was neutralised by a fix: see meta.json)')
+            elif entry is None:
                 caught.append(f'{prop} (?)')
             else:
                 caught.append(f"{prop} ({'exit 1' if entry['exit'] == 1 else 'exit ' + str(entry['exit'])})")
